@@ -225,12 +225,12 @@ example : tofRangeAfterSetUp (-1) 2 = some 2 ∧ tofRangeAfterSetUp 0 2 = some 0
 
 example : segRangeAfterSetUp (-1) 2 = some 2 ∧ segRangeAfterSetUp 1 2 = some 1 ∧ segRangeAfterSetUp 3 2 = none := by decide
 
-/-- **negative witness (histories)**: `set_up` stores the range it derived from the default `-1` in the member itself (cxx:590-591,
-    :599-600), so a second `set_up` of the same object starts from the FIRST data's maximum instead of `-1`: first data with
-    maximum 0 (non-TOF), then data with maximum 2 (5 TOF bins) → range 0 instead of 2, i.e. value, gradient, sensitivity and Hessian
-    products of part of the data, although the caller never restricted the range; first maximum 2, then maximum 0 → `set_up` is
-    refused; a newly constructed object gives 2 resp. 0.  (Tree cf0311315; harness: re-use histories with change
-    `data-and-projectors`, KNOWN-CANDIDATE `reuse:default-segment-or-TOF-range-…`; proposed repair build/fixes/C05-2.diff.) -/
+/-- **regression witness (histories)**: before fix C05-2 `set_up` stored the range it derived from the default `-1` in the member
+    itself and did not remember that (cxx:590-591, :599-600 of cf0311315), so a second `set_up` of the same object started from the
+    FIRST data's maximum instead of `-1` — the compositions below: first data with maximum 0 (non-TOF), then data with maximum 2
+    (5 TOF bins) → range 0 instead of 2; first maximum 2, then maximum 0 → `set_up` refused; a newly constructed object gives 2 resp. 0.
+    Since the fix the object remembers that the value came from the default and a later `set_up` starts from `-1` again
+    (`segRangeAfterSetUp (-1) dataMax` for every `set_up`; harness: re-use histories with change `data-and-projectors`). -/
 theorem C05_default_range_kept_when_set_up_again_fails :
     ((tofRangeAfterSetUp (-1) 0).bind fun member => tofRangeAfterSetUp member 2) = some 0 ∧ tofRangeAfterSetUp (-1) 2 = some 2 ∧
     ((tofRangeAfterSetUp (-1) 2).bind fun member => tofRangeAfterSetUp member 0) = none ∧ tofRangeAfterSetUp (-1) 0 = some 0 ∧
